@@ -41,7 +41,7 @@ MANIFEST = {
 }
 EXPLANATION = MANIFEST["level_text"]
 TRUSTED = [
-    "pyvc VC generator, its string/bytes/struct encodings; z3 5.1.0 / cvc5 1.0.3",
+    "pyvc VC generator, its string/bytes/struct encodings; z3 5.1.0 / cvc5 1.4.0",
     "AEAD (crypto.seal_bytes/open_bytes): open(t,k,aad,v) returns p only if t = seal(p,k,aad,v); otherwise SealError (C12 verifies the envelope framing)",
     "C12.L2: _compute_aad is injective in the caller identity (anonymous | (domain, principal), NUL-free domains)",
     "base64: urlsafe_b64decode(pad(rstrip(urlsafe_b64encode(x), '='))) = x; urlsafe_b64decode returns bytes or raises binascii.Error/ValueError",
